@@ -19,7 +19,7 @@ RULE = ("the entropy function handed to the library is a recording stream (event
 ASSUMPTIONS = ["the model encodes the anchored mechanism (top bitlen(n-2) bits of bitlen(n-2)//8+1 bytes, +1, reject >= n)",
                "uniformity is derived: equal split of accepted first chunks + fresh bytes after rejection (observed in the log)"]
 REQUIRED = {"quick": ["randrange.enum", "randrange.adversarial", "randrange.rejected_ge2", "generate", "sign.entropy", "sign_digest.entropy",
-                      "sign_number.entropy", "replay_same_stream", "key_then_nonce_disjoint", "seed.trytryagain", "seed.overshoot", "prng", "default_entropy.fork", "concurrent_calls", "reentrant_calls"]}
+                      "sign_number.entropy", "replay_same_stream", "key_then_nonce_disjoint", "seed.trytryagain", "seed.overshoot", "prng", "default_entropy.fork", "concurrent_calls", "reentrant_calls", "entropy_source_fails", "default_entropy.threads"]}
 EXHAUSTIVE = {"quick": ["randrange: all first chunks for every n in [2,80], n within +-2 of 2^j (j<=12): exact output distribution"],
               "thorough": ["randrange: all first chunks for every n in [2,512], sampled n to 2^12, n within +-2 of 2^j (j<=16)"]}
 
@@ -39,6 +39,8 @@ def shards(tier, seed):
     out.append(("seed_helpers", dict(kind="seed", top=1 << (9 if q else 12))))
     out.append(("concurrent", dict(kind="concurrent", runs=120 if q else 1500)))
     out.append(("default_entropy", dict(kind="default_entropy", rounds=6 if q else 40)))
+    out.append(("failing_source", dict(kind="failing_source")))
+    out.append(("default_entropy_threads", dict(kind="default_entropy_threads", runs=60 if q else 800)))
     return out
 
 
@@ -272,6 +274,85 @@ def run(ctx, name, kind, **kw):
                     jobs.append((fname, f, (seed, n), f(seed, n)))
         S.concurrent_purity(ctx, S.codes_of(util), jobs, rng, kw["runs"])
         S.reentrant_purity(ctx, S.codes_of(util), jobs, rng, max(12, kw["runs"] // 6))
+    elif kind == "failing_source":
+        # an entropy source that fails (raises) on the n-th request: the failure is the caller's to see - no value may be returned,
+        # and certainly not one drawn from somewhere else
+        curve = lib.BY_NAME["NIST256p"]
+        n = lib.dom_of(curve).n
+        sk0 = ecdsa.SigningKey.from_secret_exponent(rng.randrange(1, n), curve, hashlib.sha256)
+        for exc in (BlockingIOError, OSError, InterruptedError, IOError, ValueError, RuntimeError, EOFError, KeyError, TimeoutError, MemoryError, type("SourceFailed", (Exception,), {})):
+            for fail_at in (0, 1, 2):
+                for entry in ("randrange", "generate", "sign", "sign_digest", "sign_number"):
+                    calls = {"n": 0}
+
+                    def src(nbytes, exc=exc, fail_at=fail_at, calls=calls):
+                        calls["n"] += 1
+                        if calls["n"] - 1 == fail_at:
+                            raise exc("entropy source not ready")
+                        return b"\xff" * nbytes          # forces a rejection, so that a further request follows
+                    try:
+                        if entry == "randrange":
+                            got = util.randrange(n, src)
+                        elif entry == "generate":
+                            got = ecdsa.SigningKey.generate(curve, entropy=src).privkey.secret_multiplier
+                        elif entry == "sign":
+                            got = sk0.sign(b"m", entropy=src)
+                        elif entry == "sign_digest":
+                            got = sk0.sign_digest(hashlib.sha256(b"m").digest(), entropy=src)
+                        else:
+                            got = sk0.sign_number(12345, entropy=src)
+                        outcome = "returned a value"
+                    except exc:
+                        outcome = "propagated"
+                    except Exception as ex:
+                        outcome = "raised %s instead" % type(ex).__name__
+                    ctx.case("entropy_source_fails", key="%s|%s|%d" % (entry, exc.__name__, fail_at), nontrivial=True)
+                    ctx.check(outcome == "propagated", "failing_entropy_source_masked", "%s with an entropy function raising %s on request %d: %s (after %d requests)" % (entry, exc.__name__, fail_at, outcome, calls["n"]),
+                              dict(entry=entry, exc=exc.__name__, fail_at=fail_at))
+    elif kind == "default_entropy_threads":
+        # default entropy under threads: 2-3 threads (token scheduler, a switch possible at every line of util.py and of the signer)
+        # draw / sign at once; no two values may coincide and every signature must verify.  Two signatures by one key with the
+        # same r would give the private key away.
+        from ecdsa import keys as K
+        from vf import sched as S
+        curve = lib.BY_NAME["NIST192p"]
+        n = lib.dom_of(curve).n
+        sk0 = ecdsa.SigningKey.from_secret_exponent(rng.randrange(1, n), curve, hashlib.sha256)
+        hooks = S.LineHooks()
+        hooks.install(S.codes_of(util) + S.codes_of(K.SigningKey, {"sign", "sign_digest", "sign_number", "generate"}), None)
+        try:
+            for run_i in range(kw["runs"]):
+                k = rng.choice((2, 2, 3))
+                res = {}
+                s_ = S.Sched(S.random_decider(rng, rng.choice((0.05, 0.2, 0.5))), max_steps=400000)
+
+                def body(i):
+                    def f():
+                        if (run_i + i) % 2:
+                            res[i] = ("sig", sk0.sign(b"threads", sigencode=util.sigencode_strings))
+                        else:
+                            res[i] = ("draw", util.randrange(n), util.randrange(n))
+                    return f
+                for i in range(k):
+                    s_.spawn(body(i), "T%d" % i)
+                hooks.sched = s_
+                ok = s_.run(timeout=60.0)
+                hooks.sched = None
+                ctx.case("default_entropy.threads", key="%d|%d" % (k, min(s_.switches, 10)), nontrivial=s_.switches > k)
+                vals = []
+                for i in range(k):
+                    if s_.ts[i].exc is not None:
+                        ctx.violation("raises_under_interleaving:default_entropy", "default-entropy draw / signature raised %s: %s under interleaving" % (type(s_.ts[i].exc).__name__, s_.ts[i].exc), dict(decisions=s_.decisions[:300]))
+                    elif ok and i in res:
+                        if res[i][0] == "sig":
+                            vals.append(("r", res[i][1][0]))
+                            ctx.check(sk0.verifying_key.verify(res[i][1], b"threads", sigdecode=util.sigdecode_strings) is True, "signature_does_not_verify_under_interleaving", "signature made under interleaving does not verify", {})
+                        else:
+                            vals += [("v", res[i][1]), ("v", res[i][2])]
+                ctx.check(len(set(vals)) == len(vals), "same_random_value_drawn_twice_under_interleaving", "two concurrent default-entropy draws gave the same value (two signatures with the same r reveal the private key): %r" % (
+                    [v for v in vals if vals.count(v) > 1][:2],), dict(decisions=s_.decisions[:300]))
+        finally:
+            hooks.uninstall()
     elif kind == "default_entropy":
         # with no entropy function given the library reads the operating system's generator.  Two processes that share a history
         # (fork) must still draw DIFFERENT values: state buffered in the library before the fork would be replayed in both
